@@ -110,7 +110,7 @@ func runC15(c *Check) {
 		}
 		var inner *ssa.Function
 		for _, r := range Returns(fn) {
-			for _, o := range Origins(r.Results[0]) {
+			for _, o := range RetOrigins(r, 0) {
 				if f := FuncOfValue(o); f != nil && f.Parent() == fn {
 					inner = f
 				}
@@ -158,7 +158,7 @@ func c15GenericHandlers(c *Check, P string) {
 		}
 		var T *types.Named
 		for _, r := range Returns(ctor) {
-			for _, o := range Origins(r.Results[0]) {
+			for _, o := range RetOrigins(r, 0) {
 				if mi, ok := o.(*ssa.MakeInterface); ok {
 					T = NamedOf(mi.X.Type())
 				}
